@@ -182,3 +182,7 @@ def run(res, ctx):
         "input_distribution": dict(sorted(st.items())),
         "traces_validated_against_impl": 3 * st["evaluations"],
     })
+
+
+def replay(res, ctx, path):
+    return corecheck.replay(res, ctx, path)
